@@ -231,6 +231,24 @@ def call_event_of_result(p: Path, val) -> Optional[Event]:
     return None
 
 
+VALUE_COPIES = {'numpy.copy', 'copy.copy', 'copy.deepcopy', 'numpy.array', 'numpy.asarray'}
+
+
+def through_value_copies(p: Path, val, depth: int = 0):
+    """val, or what it is an unconverted copy of (np.copy(a), copy.deepcopy(a), np.array(a) without dtype...):
+    equal element by element to the original."""
+    if depth > 4 or val is None:
+        return val
+    ce = call_event_of_result(p, val)
+    if ce is not None and ce.d.get('callee') in VALUE_COPIES and len(ce.d['args']) == 1 and \
+            not (set(ce.d.get('kwargs') or ()) - {'copy', 'order'}):
+        return through_value_copies(p, ce.d['args'][0], depth + 1)
+    if ce is not None and ce.d['name'] == 'copy' and not ce.d['args'] and not ce.d.get('kwargs') and \
+            ce.d.get('recv') is not None and not ce.d['callees'] - {c for c in ce.d['callees'] if isinstance(c, str)}:
+        return through_value_copies(p, ce.d['recv'], depth + 1)        # a.copy()
+    return val
+
+
 def pop_event_of(p: Path, value, names=('popfirst',)) -> Optional[Event]:
     """The queue pop whose entry `value` is: the call result itself, or the entry re-packed component by component
     ((e[0], e[1]) / a NamedTuple built from them)."""
@@ -249,6 +267,16 @@ def pop_event_of(p: Path, value, names=('popfirst',)) -> Optional[Event]:
 
 
 COPY_CALL_NAMES = {'deepcopy', 'copy', 'array', 'asarray', 'asfarray', 'ascontiguousarray'}
+
+
+def is_diagnostic_call(ctx, f: FuncInfo, call: ast.Call) -> bool:
+    """A logging call (method of a logging.Logger / function of the logging module) or print: writes outside the
+    program state, keeps none of its arguments."""
+    if ctx.pta.internal_callees(f, call):
+        return False
+    if (ctx.pta._fq(f), id(call)) in ctx.pta.diag_calls:
+        return True
+    return ctx.pta.ext_callees(f, call) == {'builtins.print'}
 
 
 def image_call_of(p: Path, v, gi: FuncInfo, depth: int = 0) -> Optional[Event]:
